@@ -34,11 +34,51 @@ for _p in ("C31", "C32", "C35", "C37"):
     CHECKS[_p] = ("eng_func", "model_checking", _FUNC_ASSUME)
 
 
+_DISK_ASSUME = ["TLC and the community modules are correct",
+                "the recorder shim sees every mutation of the memory's directory (libc entry points used by Rust std, nix, atomic-write-file)",
+                "process-crash model: completed system calls persist, each is atomic",
+                "power-loss model: whole un-synced operations are lost / reordered, the last may be torn at half; a new file's directory entry is durable once the file is fsynced (ext4-like); renames need a directory fsync",
+                "the harness projection and payload registry (as in the core engine)"]
+for _p in ("C02", "C03", "C04", "C22"):
+    CHECKS[_p] = ("eng_disk", "model_checking", _DISK_ASSUME)
+
+
+# properties decided by two engines: the crash-left inputs come from the disk engine
+CHECKS["C21"] = (("eng_core", "eng_disk"), "model_checking", _CORE_ASSUME + _DISK_ASSUME[1:4])
+CHECKS["C18"] = (("eng_core", "eng_disk"), "model_checking", _CORE_ASSUME + _DISK_ASSUME[1:4])
+
+
+def _merge(covs):
+    out = {}
+    for c in covs:
+        for k, v in c.items():
+            if k in ("states", "transitions", "traces_validated_against_impl", "evaluations", "distinct_nontrivial") and isinstance(v, int):
+                out[k] = out.get(k, 0) + v
+            elif k == "samples":
+                out.setdefault("samples", []).extend(v[:2])
+            elif k == "rule":
+                out["rule"] = (out.get("rule", "") + " || " + v).strip(" |")
+            elif k == "exhaustive":
+                out["exhaustive"] = out.get("exhaustive", True) and v
+            else:
+                out.setdefault(k, v) if k not in out else out.update({k + "_2": v})
+    return out
+
+
 def run(prop, tier, replay=None):
-    modname, level, assumptions = CHECKS[prop]
-    mod = importlib.import_module(modname)
+    modnames, level, assumptions = CHECKS[prop]
+    if isinstance(modnames, str):
+        modnames = (modnames,)
     out = Outcome(prop, tier)
     if replay:
-        return mod.replay(prop, replay, out)
-    coverage = mod.run(tier, out) if not hasattr(mod, "run_prop") else mod.run_prop(prop, tier, out)
-    return out.finish(level, coverage, assumptions)
+        import json
+        eng = json.load(open(replay)).get("replay", {}).get("engine")
+        for m in modnames:
+            if eng is None or m == "eng_" + eng:
+                return importlib.import_module(m).replay(prop, replay, out)
+        return importlib.import_module(modnames[0]).replay(prop, replay, out)
+    covs = []
+    for m in modnames:
+        mod = importlib.import_module(m)
+        covs.append(mod.run(tier, out) if not hasattr(mod, "run_prop") else mod.run_prop(prop, tier, out))
+    return out.finish(level, covs[0] if len(covs) == 1 else _merge(covs), assumptions)
